@@ -346,6 +346,7 @@ def queries(kind, obj, ps, part, case):
                     part.violation("C07/get-duplicates", "get_markings reports a marking twice", dict(case, query=["get", sels, fl]), sorted(gs), sorted(gl))
             if got_default is None:
                 continue
+            # (a list of DIFFERENT markings is not asserted: the documentation says ANY, the granular code requires ALL - the property speaks of one marking M)
             # is_marked agrees with get_markings under the same options (library vs library), and with the model
             for m in marks + [None]:
                 part.transitions += 1
@@ -366,7 +367,8 @@ def queries(kind, obj, ps, part, case):
                 # the marking named by a marking-definition OBJECT (and by a list holding one) instead of its id: same question, same answer
                 if m == RED:
                     import stix2
-                    for form, mv in (("marking-object", stix2.TLP_RED), ("list-with-marking-object", [stix2.TLP_RED])) + ((("method", "$method"),) if hasattr(obj, "is_marked") else ()):
+                    for form, mv in (("marking-object", stix2.TLP_RED), ("list-with-marking-object", [stix2.TLP_RED]), ("same-marking-twice", [RED, RED]),
+                                     ("id-and-object-of-one-marking", [RED, stix2.TLP_RED])) + ((("method", "$method"),) if hasattr(obj, "is_marked") else ()):
                         part.transitions += 1
                         try:
                             im2 = obj.is_marked(stix2.TLP_RED, sels, inherited=inh, descendants=desc) if mv == "$method" else MK.is_marked(obj, mv, sels, inherited=inh, descendants=desc)
